@@ -75,5 +75,7 @@ def main : IO UInt32 := do
     IO.println s!"CLASS {c.1} count={c.2}"
   for c in acc.cov do
     IO.println s!"COV {c.1} count={c.2}"
+  for c in acc.hyp do
+    IO.println s!"HYP {c.1} count={c.2}"
   IO.println s!"SUMMARY lines={acc.lines} checked={acc.checked} disagree={acc.disagree} specfail={acc.specfail}"
   return 0
